@@ -1,6 +1,7 @@
 From Coq Require Import List NArith ZArith.
-From Tink Require Import XBase Bytes Base64url Jwt.
+From Tink Require Import XBase Bytes Base64url Jwt Jwk.
 Require Import ExtrOcamlBasic.
 Extraction "m.ml" xb_add xb_mul xb_div_eucl
   b64_encode b64_decode tink_kid has claim_str claim_time audiences
-  new_validator verify new_raw_jwt encode_parts encode jwk_roundtrip.
+  new_validator verify new_raw_jwt encode_parts encode jwk_roundtrip
+  jwk_export jwk_import jwk_import_handle alg_name.
